@@ -3,6 +3,7 @@ CONSTANTS
   Locked = TRUE
   Bodies <- BodiesH
   Modes <- AllModes
+  ValueChoices <- DefaultValues
   Seconds <- NoSecond
   TickMs <- Ticks1
   MaxTicks = 2
